@@ -158,6 +158,93 @@ impl<B: MkBuf> System for RingSys<B> {
     }
 }
 
+// ------------------------------------------------- large / unusual capacities
+
+/// a user-defined backing array whose length (96) is neither <= 64 nor a power of two
+pub struct A96([Tag; 96]);
+impl AsRef<[Tag]> for A96 {
+    fn as_ref(&self) -> &[Tag] {
+        &self.0
+    }
+}
+impl AsMut<[Tag]> for A96 {
+    fn as_mut(&mut self) -> &mut [Tag] {
+        &mut self.0
+    }
+}
+unsafe impl futures_intrusive::buffer::RealArray<Tag> for A96 {
+    const LEN: usize = 96;
+}
+impl MkBuf for ArrayBuf<Tag, A96> {
+    fn mk(cap: usize) -> Self {
+        assert_eq!(cap, 96);
+        Self::new()
+    }
+}
+
+#[derive(Clone, Copy, Debug, PartialEq)]
+pub enum ScriptOp {
+    /// fill the buffer, pop x elements, fill it again, pop everything, fill half, drop
+    Cycle(u8),
+}
+
+/// Long scripted sequences for capacities the exhaustive enumeration cannot reach (C19 asks for
+/// index wrap-around in general; the exhaustive part covers capacities 0..4): for every x in a small
+/// set the sequence `push^cap pop^x push^x pop^cap push^(cap/2) drop` is checked step by step
+/// against the reference FIFO.
+pub struct RingScript<B: MkBuf> {
+    cap: usize,
+    done: bool,
+    _p: std::marker::PhantomData<B>,
+}
+
+impl<B: MkBuf> System for RingScript<B> {
+    type Op = ScriptOp;
+    fn new(cfg: &Cfg) -> Self {
+        RingScript { cap: cfg.get("cap") as usize, done: false, _p: std::marker::PhantomData }
+    }
+    fn enabled(&self) -> Vec<ScriptOp> {
+        if self.done {
+            return vec![];
+        }
+        let c = self.cap;
+        let mut xs = vec![1usize, 2, c / 3, c / 2, c.saturating_sub(1), c];
+        xs.retain(|&x| x >= 1 && x <= c);
+        xs.sort();
+        xs.dedup();
+        xs.into_iter().map(|x| ScriptOp::Cycle(x as u8)).collect()
+    }
+    fn apply(&mut self, op: ScriptOp, out: &mut StepOut) {
+        let ScriptOp::Cycle(x) = op;
+        let x = x as usize;
+        self.done = true;
+        let mut sys = RingSys::<B> { buf: Some(B::mk(self.cap)), reference: VecDeque::new(), popped: vec![], cap: self.cap, next: 0, steps: 0, max_len: usize::MAX, hist: vec![] };
+        let mut script: Vec<RingOp> = vec![];
+        script.extend(std::iter::repeat(RingOp::Push).take(self.cap));
+        script.extend(std::iter::repeat(RingOp::Pop).take(x));
+        script.extend(std::iter::repeat(RingOp::Push).take(x));
+        script.extend(std::iter::repeat(RingOp::Pop).take(self.cap));
+        script.extend(std::iter::repeat(RingOp::Push).take(self.cap / 2));
+        for (i, o) in script.iter().enumerate() {
+            if sys.next == 255 {
+                break;
+            }
+            sys.apply(*o, out);
+            if !out.viol.is_empty() {
+                out.o(&format!("failed-at-step-{}", i));
+                // the elements are leaked on purpose: the buffer state is suspect
+                std::mem::forget(sys);
+                return;
+            }
+        }
+        sys.finish(out);
+    }
+    fn fingerprint(&self) -> Vec<u8> {
+        vec![self.done as u8]
+    }
+    fn finish(self, _out: &mut StepOut) {}
+}
+
 // ------------------------------------------------------------------- list
 
 #[derive(Clone, Copy, Debug, PartialEq)]
